@@ -25,7 +25,15 @@ impl ResourceClass {
             && act_block(*self, staging_time, *issuance_timing, final(events)@.subrange(old(events)@.len() as int, final(events)@.len() as int)) { unimplemented!() }
     #[verifier::external_body] pub fn parent_handle(&self) -> (r: &ParentHandle) { unimplemented!() }
 }
-pub struct RepositoryContact { pub repo_info: RepoInfo }
+#[verifier::external_type_specification] pub struct ExRepositoryContact(RepositoryContact);
+/// ASSUMED: `==` on repository contacts is value equality (derived PartialEq in krill)
+impl vstd::std_specs::cmp::PartialEqSpecImpl for RepositoryContact {
+    open spec fn obeys_eq_spec() -> bool { true }
+    open spec fn eq_spec(&self, other: &RepositoryContact) -> bool { *self == *other }
+}
+pub assume_specification [<RepositoryContact as PartialEq>::eq] (a: &RepositoryContact, b: &RepositoryContact) -> (r: bool);
+pub uninterp spec fn roll_possible(rc: ResourceClass) -> bool;
+impl ResourceClass { #[verifier::external_body] pub fn key_roll_possible(&self) -> (r: bool) ensures r == roll_possible(*self) { unimplemented!() } }
 pub struct Config { pub issuance_timing: IssuanceTimingConfig }
 pub uninterp spec fn repo_of(ca: CertAuth) -> Option<RepositoryContact>;
 impl CertAuth {
@@ -57,11 +65,13 @@ def build():
     U = Unit('c04_roll_wrappers', 'C04', 'starting / activating a roll asks every resource class exactly once; the events of the command are exactly the blocks the classes appended, in visiting order')
     common(U, skip=('ResourceClass', 'RepositoryContact'))
     prelude.time(U)
-    for t in ['ResourceClass', 'ChildDetails', 'KrillSigner', 'RepoInfo', 'IssuanceTimingConfig']:
+    for t in ['ResourceClass', 'ChildDetails', 'KrillSigner', 'IssuanceTimingConfig']:
         U.opaque(t, '')
+    U.opaque('RepoInfo', 'PartialEq, Eq')
+    U.outside('#[derive(PartialEq, Eq)] pub struct RepositoryContact { pub repo_info: RepoInfo }')
     U.struct(CA, 'CertAuth', derive=[])
-    U.enum(EV, 'CertAuthEvent', keep=[], derive=[])
-    U.enum(ERR, 'Error', keep=[], derive=[])
+    U.enum(EV, 'CertAuthEvent', keep=['RepoUpdated'], derive=[])
+    U.enum(ERR, 'Error', keep=['CaRepoInUse', 'KeyRollInProgress'], derive=[])
     U.add(SPEC)
     km = 'obeys_key_model::<ResourceClassName>()'
     pairs = '''vx_it.seq().len() == self.resources@.len() && (forall |i: int| 0 <= i < vx_it.seq().len() ==> self.resources@.contains_key(*(#[trigger] vx_it.seq()[i]).0)
@@ -113,6 +123,28 @@ def build():
         }}'''),
                     ])
     U.impl('impl CertAuth', [
+        # a repository change is carried out as a key roll in EVERY class: it is refused while ANY class cannot start one (and for the
+        # repository already in use), every class is asked to roll into the NEW repository, and RepoUpdated is recorded last
+        U.fn(CA, 'CertAuth', 'process_update_repo', requires=[('km', km)], values_loops=(0,), attrs=['#[verifier::loop_isolation(false)]'],
+             ensures=[
+                 ('refused_for_the_repository_already_in_use', 'self.repository is Some && self.repository->Some_0 == contact ==> r is Err'),
+                 ('refused_while_any_class_cannot_start_a_roll', '''r is Ok && self.repository is Some ==>
+                        forall |n: ResourceClassName| #[trigger] self.resources@.contains_key(n) ==> roll_possible(self.resources@[n])'''),
+                 ('repository_change_recorded_last', 'r is Ok ==> r->Ok_0@.len() >= 1 && r->Ok_0@.last() == (CertAuthEvent::RepoUpdated { contact })'),
+             ],
+             loops={0: {'iter': 'vx_it', 'invariant': [
+                 ('km', km), ('pairs', pairs),
+                 ('a_class_that_cannot_roll_is_still_to_come', '''forall |n: ResourceClassName| #[trigger] self.resources@.contains_key(n) && !roll_possible(self.resources@[n])
+                        ==> exists |j: int| vx_it.index@ <= j < vx_it.seq().len() && *(#[trigger] vx_it.seq()[j]).0 == n'''),
+             ]}},
+             ghost=[(('loop_start', 0), 'let ghost g_i = vx_it.index@ as int; proof { assert(*rc == *vx_it.seq()[g_i].1); }'),
+                    (('loop_end', 0), '''proof {
+                assert forall |n: ResourceClassName| #[trigger] self.resources@.contains_key(n) && !roll_possible(self.resources@[n])
+                        implies exists |j: int| g_i + 1 <= j < vx_it.seq().len() && *(#[trigger] vx_it.seq()[j]).0 == n by {
+                    let j = choose |j: int| g_i <= j < vx_it.seq().len() && *(#[trigger] vx_it.seq()[j]).0 == n;
+                    if j == g_i { assert(self.resources@[n] == *vx_it.seq()[g_i].1); }
+                }
+            }''')]),
         wrapper('process_keyroll_initiate', lambda rc, b: f'init_block({rc}, repo_of(*self)->Some_0.repo_info, duration, {b})',
                 lambda e, s_, c: f'init_ok(*self, duration, {e}, {s_}, {c})'),
         wrapper('process_keyroll_activate', lambda rc, b: f'act_block({rc}, staging_time, config.issuance_timing, {b})',
